@@ -17,6 +17,11 @@ CONSTANTS Table <- McTable
  SeqMsgs <- NoMsgs
  SeqConfirms <- NoConfirms
  SeqMix <- NoMix
+ RxOn = FALSE
+ Answering <- NoAnswering
+ RxMax = 0
+ RxBystander = FALSE
+ RxStallOut = FALSE
  Dev <- McDev5
 INVARIANTS TypeOK UniqueRows NodeAlive NoDeadlock AllocBounded
 PROPERTIES ClosedIsFinal OnlyHandshakesAdvance
